@@ -142,7 +142,11 @@ def run(tier):
         if o.get("res") != "ok":
             bad("dispatching the eventual reply fails: %s" % (o.get("err") or o), "dispatch")
             continue
-        a = c07.echo_of(o)["args"]
+        try:
+            a = c07.echo_of(o)["args"]
+        except (IndexError, KeyError):
+            bad("the reply was answered without running handler Ct::%s: %s" % (m.fn, json.dumps(o.get("resp"))[:200]), "handler")
+            continue
         if c07.echo_of(o)["h"] != "Ct::" + m.fn:
             bad("reply reached %s, expected Ct::%s" % (c07.echo_of(o)["h"], m.fn), "handler")
         if m.payload == ("raw",):
